@@ -172,4 +172,21 @@ func runC20(r *vf.Runner) {
 	runC20e2e(r)
 	runC20chains(r)
 	runC20drops(r)
+	// partly cached results (the two-run cases of the C13 monitor, judged here for their user
+	// metrics): the tasks of one slice then differ in their dependencies -- a cached shard has
+	// none -- and the result's scope must still merge every task that ran, once
+	for _, conf := range []sessConf{localP4, bm2} {
+		for _, pos := range []string{"after-shuffle", "before-shuffle", "middle"} {
+			for present := 0; present < 1<<3; present++ {
+				if r.Quick() && pos != "after-shuffle" && present%3 != 1 {
+					continue
+				}
+				c := c13case{Conf: conf, Kind: "cachepartial", Position: pos, Shards: 3, Rows: 130, Present: present, FailAt: -1, UserFail: -1, Seed: 10}
+				r.Case(c, func(t *vf.T) {
+					runC13case(t, c)
+					t.Count("partly_cached_runs", 1)
+				})
+			}
+		}
+	}
 }
